@@ -118,6 +118,8 @@ func (o *vectorOperator) initOutputs(ctx context.Context) error {
 
 	lowCardSide, err := o.rhs.Series(ctx)
 	if err != nil {
+		// Wait for the loader of the left-hand side: it must not outlive the query.
+		<-errChan
 		return err
 	}
 	if err := <-errChan; err != nil {
